@@ -37,6 +37,9 @@ def main(argv=None):
     rep = core.Report(pid, a.tier, seed)
     try:
         ctx = core.Ctx()
+        if getattr(ctx.prog, "aliases", None):
+            rep.extra["renames_resolved"] = {c: {k: v for k, v in m.items() if v} for c, m in ctx.prog.aliases.items()}
+            print("[%s] renamed declarations resolved against rules/decl_schema.json: %s" % (pid, rep.extra["renames_resolved"]))
         mod.run(ctx, rep, a.tier)
         if a.tier == "thorough":
             if hasattr(mod, "run_thorough"):
@@ -54,6 +57,7 @@ def core_assumptions():
     return [
         "clang 14 parser, overload resolution and implicit-conversion insertion (the AST is the type-checked program)",
         "frozen tables under /verif/rules (allow-lists, seeds, exceptions), each entry confirmed by reading the tree",
+        "a data member or method missing from rules/decl_schema.json's class layout is matched to the declaration of the same type at the same position (or the only new one of that type): pure renames keep their rules",
         "the library is exactly the SOURCES list of CMakeLists.txt plus the headers it includes; no code hides writes behind macros",
         "external (std/boost/Eigen/lemon) functions behave as classified in cqverif/effects.py (read-only vs mutating tables); unknown ones are reported as escapes, never assumed harmless",
     ]
